@@ -240,6 +240,27 @@ def permutation_worker(seed):
             if a3 != a4:
                 problems.append({"what": "layer rule outcome depends on the order in which overlapping layers (a named module that also matches another layer's regex) were defined",
                                  "outcomes": [a3, a4], "arch": arch3, "lops": c["lops"], "nodes": nodes, "imports": imps})
+    # nested layer roots: one layer lists a module, another lists one of its sub modules. Whatever the outcome is (the library
+    # raises LayerMismatch for modules below both), it must not depend on the order of the definitions.
+    nested = [(a, b) for a in nodes for b in nodes if b.startswith(a + ".")]
+    if nested:
+        a_, b_ = rng.choice(nested)
+        rest = [n for n in nodes if not gen.related(n, a_)]
+        arch5 = [("L0", "N", [a_]), ("L1", "N", [b_])] + ([("L2", "N", [rng.choice(rest)])] if rest else [])
+        names = [l[0] for l in arch5]
+        subj = rng.choice(names)
+        objs = rng.sample([n for n in names if n != subj], rng.randint(1, len(names) - 1))
+        verb, imp, exc, anything = rng.choice(gen.SHAPES)
+        lops = layer_rule_ops(verb, imp, exc, subj, objs, anything, obj_as_list=True)
+        c5 = {"nodes": nodes, "imps": imps, "arch": arch5, "lops": lops, "spec": None}
+        outs = []
+        for perm in (arch5, list(reversed(arch5)), arch5[1:] + arch5[:1]):
+            c6 = dict(c5)
+            c6["arch"] = perm
+            outs.append(impl_layer(c6))
+        if len(set(outs)) > 1:
+            problems.append({"what": "layer rule outcome depends on the order in which nested layers (a module and one of its sub modules in different layers) were defined",
+                             "outcomes": outs, "arch": arch5, "lops": lops, "nodes": nodes, "imports": imps})
     return fail, problems
 
 
